@@ -31,6 +31,7 @@ pub fn net_in_req(n: Network) -> NetworkInRequest {
 }
 
 thread_local! {
+    static MEMORY_SNAPSHOTS: std::cell::RefCell<std::collections::HashMap<&'static str, Vec<u8>>> = std::cell::RefCell::new(std::collections::HashMap::new());
     pub static IN_GUARD: std::cell::Cell<u32> = const { std::cell::Cell::new(0) };
 }
 
@@ -67,13 +68,33 @@ pub fn guarded<R>(f: impl FnOnce() -> R) -> Result<R, String> {
 /// Fresh stable memory + `init`. Without the memory reset `StableBTreeMap::init` would
 /// silently reload the previous case's data.
 pub fn fresh_init(network: Network, stability_threshold: u128, fees: Option<Fees>) {
-    can::memory::set_memory(DefaultMemoryImpl::default());
+    // A fresh stable memory costs ~1 s (the memory manager allocates an 8 MiB bucket per
+    // region). The bytes right after `init` on a fresh memory depend on the network only, so a
+    // copy of them is an equally fresh memory: `init` then re-attaches the (empty) structures.
+    let t_a = std::time::Instant::now();
+    let snapshot = MEMORY_SNAPSHOTS.with(|m| m.borrow().get(net_name(network)).cloned());
+    if std::env::var("VERIF_TIMING").is_ok() { eprintln!("clone {} us", t_a.elapsed().as_micros()); }
+    let have_snapshot = snapshot.is_some() && std::env::var("VERIF_NO_SNAPSHOT").is_err();
+    match snapshot {
+        Some(bytes) if have_snapshot => {
+            can::memory::set_memory(std::rc::Rc::new(std::cell::RefCell::new(bytes)));
+        }
+        _ => can::memory::set_memory(DefaultMemoryImpl::default()),
+    }
+    if std::env::var("VERIF_TIMING").is_ok() { eprintln!("set_memory done at {} us", t_a.elapsed().as_micros()); }
+    let t_init = std::time::Instant::now();
     can::init(InitConfig {
         stability_threshold: Some(stability_threshold),
         network: Some(network),
         fees,
         ..Default::default()
     });
+    if std::env::var("VERIF_TIMING").is_ok() { eprintln!("init {} us, memory bytes {}", t_init.elapsed().as_micros(), can::memory::get_memory().borrow().len()); }
+    if !have_snapshot {
+        let bytes: Vec<u8> = can::memory::get_memory().borrow().clone();
+        MEMORY_SNAPSHOTS.with(|m| m.borrow_mut().insert(net_name(network), bytes));
+    }
+    if std::env::var("VERIF_TIMING").is_ok() { eprintln!("all done at {} us", t_a.elapsed().as_micros()); }
     can::runtime::mock_time::set_mock_time_secs(2_000_000_000);
     can::verif_hooks::set_performance_counter_step(0);
     can::verif_hooks::performance_counter_reset();
